@@ -5,8 +5,16 @@ Proofs_NbWait.v) about the executable model coq/Nonblocking.v of ncmpio_i_getput
 queue invariant preserved by post / cancel / wait; writes to pairwise disjoint byte sets commute; the ONE
 (file type, buffer type) pair a wait builds - for any sorted permutation qsort returns, any grouping, record/varn
 splitting - moves exactly the bytes of the blocking calls when no byte is written twice (commit_stream_correct), hence
-wait refines blocking execution for puts; for gets, statuses/frame and numrecs the full statements are REFUTED on the
-model (witnesses = findings F2, F3, F1) and proved under the stated extra hypotheses.
+wait refines blocking execution for puts (one process and collective wait of any number of processes); numrecs after a
+wait in full (F1 repaired in /repo).  The model carries BOTH variants of extract_reqs (argument fx of
+Nonblocking.extract_reqs): for the snapshot shape (shortcuts by request COUNT, error return leaves the marks) status_own,
+wait_subset_frame and failed_wait_no_effect are REFUTED (witnesses = findings F3, poisoned requests) and proved under
+no_shortcut; for the shape of patches/F3_poison.diff they are proved IN FULL and the queue invariant holds over all
+histories whatever the waits return.  For gets the full statement is refuted for both variants (F2) and proved when the
+reads completed together are disjoint.
+VARIANT TIE: pnc/nb_gen.detect_variant reads ncmpio_wait.c as built (shortcut conditions, third shortcut, error return of
+extract_reqs, loop bound of req_commit) and runs the model with that variant; an unrecognised shape fails closed
+(violation without input).
 
 TIE: correspondence.  Random and directed histories of iput/iget/bput (all forms incl. varn, multi-record, typed and
 flexible with vector buffers, imap) and wait/wait_all/cancel (all at once, by kind, subsets, permuted, NULL and duplicated
